@@ -47,9 +47,11 @@ LEVEL = {
             'design_ref': '5 C19',
             'note': _TB + 'time.Parse/Format are modelled for the one fixed layout, including the liberal forms time.Parse accepts (one-digit hour, fractional seconds).'},
     'C08': {'text': 'Theorems on the command model: a copy that does not report success leaves an existing destination exactly as it was; a missing destination is created '
-                    'with its header synced; nothing differs => nothing written, no report; plus the two log-level facts (batch frame, window-local writes) the slot-wise '
-                    'equality rests on. PARTIAL: the end-to-end slot-wise equality over copy_core is not yet a single theorem; it is checked by running the real '
-                    'CopyCommand against the model (fetches of every archive after the copy, second copy, diff).',
+                    'with its header synced; nothing differs => nothing written, no report. END TO END (C08_successful_copy_equalizes, proved through the refinement of the physical rings to '
+                    'write logs): for every destination content a history of updates can produce, every valid layout, clock of the domain, window, archive selection and NaN mode and every '
+                    'well-formed source list (the one read from any such source file is), a copy that reports success leaves a destination which, opened afresh, answers the same fetch with '
+                    'series of the same ranges whose difference from the source is empty - slot by slot the source value wherever it is to be copied (C08_empty_difference_slotwise); a second '
+                    'copy is a no-op (C08_repeat_copy_changes_nothing) and diff is clean (C08_then_diff_is_clean). The real CopyCommand is run against the model on every run.',
             'design_ref': '5 C08',
             'note': _TB + 'Commands read the wall clock; the harness recovers the clock from the command output. filepath.Glob is an oracle.'},
     'C09': {'text': 'Theorems: the listing is exactly the filter of the differing slots (in slot order, both values); clean iff no slot differs; value equality is NaN-aware '
@@ -61,7 +63,9 @@ LEVEL = {
             'design_ref': '5 C10',
             'note': _TB + '"NaN only if none has a value" holds up to IEEE overflow of the float sum itself (+Inf + -Inf), stated in the theorem.'},
     'C11': {'text': 'Theorems: sum-copy is copy_core applied to the sum with NaN copying (so C08/C10 theorems apply), sum-diff is diff_core on the sum; a destination equal to the sum is clean; '
-                    'failure leaves an existing destination untouched. PARTIAL like C08 for the slot-wise equality.',
+                    'failure leaves an existing destination untouched. END TO END (C11_sumcopy_stores_the_sum): the sum of files that histories of updates can produce is a well-formed list '
+                    '(C11_sum_lists_are_well_formed), and after a sum-copy that reports success the destination, opened afresh, holds in every slot of every selected window a value equal to '
+                    'the sum\'s (NaN where the sum is NaN) and sum-diff over the same window is clean.',
             'design_ref': '5 C11', 'note': _TB},
     'C12': {'text': 'Theorems: the view/sum and view-raw responses decode to exactly the header and series/point lists the handler encoded; the empty body is the not-exist answer; '
                     'a text error body never decodes as a header. Every read command is run against a real server and against the directory and both are compared with the model.',
